@@ -14,22 +14,40 @@ SOURCES = ["src/allmydata/immutable/downloader/share.py", "src/allmydata/immutab
            "src/allmydata/hashtree.py", "src/allmydata/immutable/layout.py", "src/allmydata/uri.py",
            "src/allmydata/util/hashutil.py"]
 DESIGN_REF = "DESIGN.md §2 C02"
-TECHNIQUE = ("Lean 4 proof over an executable model of the downloader's validation chain (Share._get_satisfaction stage by stage, "
-             "process_blocks/_check_ciphertext_hash, Segmentation) on top of the hash-tree soundness of C35, for an abstract "
-             "collision-free hash and an adversary that chooses every field of every answer; correspondence: whole downloads of "
-             "single-share k=1 files with exactly one field altered / truncated / swapped, real outcome vs the model run on the "
-             "same share bytes with real SHA-256d; monitor: corruption campaigns on stored shares of real uploads on the "
-             "in-process grid (every structural field, edge values, truncations, swaps between shares/files/encodings, servers "
-             "that change their answers between reads)")
-LEVEL_TEXT = ("Proved for every ciphertext, encoding, erasure decoder, set.pop order and every sequence of arbitrary server answers: "
-              "a delivered segment is the genuine ciphertext segment at its offset; the bytes written by read() are always a "
-              "prefix of the requested range (ciphertext and, through position-wise CTR, plaintext) and a completed read wrote "
-              "exactly the range; a share of another encoding is refused at the UEB hash. Hypotheses: collision-free tagged "
-              "hashes, injective pair hash, strict presence test in hashtree.py (32-byte hashes), UEB pack/unpack round trip (C38).")
-LEVEL_NOTE = ("Lean kernel + standard axioms; hand-written model tied to the code by function-level and end-to-end runs; zfec, AES, "
-              "Twisted/foolscap plumbing and the request bookkeeping (Spans, C37) are exercised, not verified; share selection / "
-              "timers (C03/C46) are outside the model: a Script is the sequence of share passes that happened.")
-RULE = ("one case = one download of a real uploaded file (k/N/segment size incl. multi-segment and v1/v2 share layouts) after one "
+TECHNIQUE = ("Lean 4 proofs over an executable model of the downloader's validation chain (Share._get_satisfaction stage by stage: "
+             "offset table, UEB, share hash chain, block hash root, block hash tree, crypttext hash tree, data block; process_blocks/"
+             "_check_ciphertext_hash; the fetcher's per-segment collection; Segmentation's read loop with its segment-size guess and "
+             "both retry paths) on top of the hash-tree soundness of C35, for an abstract collision-free hash and an adversary that "
+             "chooses every field of every answer afresh on every pass; node invariants (NodeInv for the stored UEB + ciphertext hash "
+             "tree, ShInv for the share hash tree and the block hash trees of all share numbers) proved over arbitrary histories. "
+             "Correspondence with real SHA-256d and the real UEB parser: Share._satisfy_offsets on crafted tables; "
+             "Segmentation._got_segment on arbitrary (wanted range, handed segment); whole downloads of k=1 files from one share with "
+             "one field altered / truncated / swapped and from sequences of consistently forged shares, real outcome vs the Lean chain "
+             "on the same share bytes. Monitor on the in-process grid: a fixed corpus (one case per repaired defect and per seeded "
+             "change, VERIF_CORPUS_ONLY=1 runs only it), then corruption campaigns on stored shares of real uploads, consistent "
+             "forgeries, wrong segment-size guesses, servers that change their answers between reads")
+LEVEL_TEXT = ("Proved (14 theorems) for every ciphertext, encoding, erasure decoder, set.pop order, segment-size guess and every "
+              "sequence of arbitrary server answers: delivered_segment_genuine (a delivered segment is the genuine ciphertext segment "
+              "at its offset, after any history of the node); read_prefix_correct / read_prefix_correct_plaintext (bytes written by "
+              "read() are always a prefix of the requested range, a completed read wrote exactly the range; plaintext through "
+              "position-wise CTR); forged_ueb_rejected, wrong_encoding_rejected, bad_header_rejected (rejection at the UEB / header "
+              "step, node untouched); share_chain_stage_sound, block_root_anchored, block_hash_tree_stage_sound, accepted_block_genuine, "
+              "ct_hash_stage_sound (each stage keeps its tree a partial copy of the published tree; an accepted block is the "
+              "uploader's block); rejected_share_cannot_poison_node and accepted_block_genuine_history (the node invariants survive "
+              "every pass of every share and process_blocks: a block any share reports COMPLETE is genuine after any history). "
+              "Hypotheses: collision-free tagged hashes, injective pair hash, strict presence test in hashtree.py (true of 32-byte "
+              "hashes), pack/unpack round trip of the published UEB (C38), acceptable encoding parameters. Not covered here: that a "
+              "read ends (C46) and ends successfully when k good shares exist (C03).")
+LEVEL_NOTE = ("Lean kernel + standard axioms; hand-written model tied to the code by function-level and end-to-end runs; zfec, AES "
+              "(DecryptingConsumer is modelled as a position-wise xor, its counter arithmetic is exercised by ranged reads, not "
+              "transcribed), Twisted/foolscap plumbing and the request bookkeeping (Spans, C37) are exercised, not verified; share "
+              "selection / timers (C03/C46) are outside the model: a Script is the sequence of share passes that happened. The "
+              "defect found here (never-ending request loop on a share truncated inside its header) is repaired in /repo (ea42624); "
+              "its corpus case stays.")
+RULE = ("fixed corpus first (independent of the seed): truncation inside the header on 1 / all shares; a full foreign share set with "
+        "its own UEB under 8 delivery orders; consistently forged shares carrying the genuine UEB offered 3-5 times to one node; a "
+        "later segment's blocks corrupt in more than N-k shares; ranged first reads with a too-small segment-size guess. Then one "
+        "case = one download of a real uploaded file (k/N/segment size incl. multi-segment and v1/v2 share layouts) after one "
         "mutation of the stored shares: byte flip in a named region (version, block_size, data_size, each offset field, block data, "
         "plaintext/crypttext hash tree, block hashes, share hashes, UEB length, UEB), header field set to an edge value, truncation "
         "at a section boundary, swap between share numbers / files / encodings, a server rewriting its share between reads, or the "
@@ -39,11 +57,15 @@ RULE = ("one case = one download of a real uploaded file (k/N/segment size incl.
         "around every guessed and real segment boundary, with and without a corrupted share; thorough: a real 5 MiB file with "
         "2 MiB segments against the unpatched 1 MiB guess); "
         "applied to 1, N-k+1 or all shares; distinct = distinct (file, mutation, targets, read range, seed); non-trivial = the "
-        "mutation changed at least one stored byte. Function-level cases: k=1 file, one share kept, one mutation, whole-file read.")
+        "mutation changed at least one stored byte. Function-level cases: crafted offset tables; (wanted range, handed segment) "
+        "pairs for _got_segment; k=1 file, one share kept, one mutation, whole-file read; k=1 forged share sequences.")
 TRUSTED = ["harness/grid.py (in-process grid, seeded scheduler, fault hook)",
-           "lean/Tahoe/Immutable/IntegrityBytes.lean reads the share bytes the way layout.py lays them out (driver side)"]
+           "lean/Tahoe/Immutable/IntegrityBytes.lean reads the share bytes the way layout.py lays them out (driver side)",
+           "DownloadNode.default_max_segment_size is set per bad-guess case (the guess itself is computed by the real code)"]
 ASSUMPTIONS = ["SHA-256d tagged hashes are collision-free; pair_hash injective (hypotheses CollisionFree / PairInjective)",
                "hash values are never the empty string (StrictPresence; true of 32-byte SHA-256d outputs)",
+               "uri.unpack_extension(pack_extension(d)) returns the published fields (Setup.ser_ok; C38)",
+               "AES-CTR is a position-wise xor with a keystream (read_prefix_correct_plaintext)",
                "zfec with k=1 produces copies of the segment (checked on every function-level case)",
                "the ShareFile container layout: 12-byte header, data, leases (used to rewrite share bodies)"]
 
